@@ -357,14 +357,18 @@ theorem aba_payload2 : PayloadOK abaS1 abaE2 := ⟨trivial, trivial, trivial, tr
 theorem aba_truth1 : TruthStep abaS abaE1 abaT abaT := by
   refine ⟨fun h => ?_, fun _ => ?_⟩
   · rw [aba_step1] at h; cases h
-  · show ∀ n, n ≠ "tag/x" → SameAt abaS abaT abaT n
-    intro n _ t _ id _; rfl
+  · show (¬ DropsOutput abaS (.delTag "tag/x") → ∀ n, n ≠ "tag/x" → SameAt abaS abaT abaT n) ∧
+      (DropsOutput abaS (.delTag "tag/x") → ∀ n t, n ≠ "tag/x" → sget abaS.tags n = some t → ∀ id, id < abaS.next →
+        abaT n id ≠ abaT n id → Dep abaS.tags abaS.next (PayloadBase abaS) n id)
+    exact ⟨fun _ n _ t _ id _ => rfl, fun _ n t _ _ id _ hT => absurd rfl hT⟩
 
 theorem aba_truth2 : TruthStep abaS1 abaE2 abaT abaT := by
   refine ⟨fun h => ?_, fun _ => ?_⟩
   · rw [aba_step2] at h; cases h
-  · show ∀ n, n ≠ "mark/m" → SameAt abaS1 abaT abaT n
-    intro n _ t _ id _; rfl
+  · show (¬ DropsOutput abaS1 (.delTag "mark/m") → ∀ n, n ≠ "mark/m" → SameAt abaS1 abaT abaT n) ∧
+      (DropsOutput abaS1 (.delTag "mark/m") → ∀ n t, n ≠ "mark/m" → sget abaS1.tags n = some t → ∀ id, id < abaS1.next →
+        abaT n id ≠ abaT n id → Dep abaS1.tags abaS1.next (PayloadBase abaS1) n id)
+    exact ⟨fun _ n _ t _ id _ => rfl, fun _ n t _ _ id _ hT => absurd rfl hT⟩
 
 /-- the reduced `JobTextOK` says nothing about deletions -/
 theorem aba_jobText1 : JobTextOK abaS abaE1 {} abaT abaT := fun _ _ _ _ => trivial
